@@ -1297,14 +1297,15 @@ def evalStmt : Nat → Stmt → M ν Addr
             pass idx v) 0 items
         | .hm _ order =>
           untilM (fun k => do
-            -- `v := tv.GetValue()[key]` is read at iteration time
+            -- `keys := append([]string{}, tv.GetKeyOrder()...)`: the order as it stood when the loop started;
+            -- `v, exists := tv.GetValue()[key]` is read at iteration time, a key removed meanwhile is skipped
             match ← getCell target with
             | .hm vals _ =>
               match lookup k vals with
               | some v => do
                 let ks ← newStr k
                 pass ks v
-              | none => goPanic
+              | none => pure false
             | _ => goPanic) order
         | _ => rtErr 80
       newNull
